@@ -27,7 +27,8 @@ def plan(tier):
                 'scans every record of level >= INFO (message, arguments, formatted traceback) and every result message '
                 'for canary windows in raw, hex, base64 and escaped form; a cell is (logger, level, source of the record)',
         'min_monitor': {'records_scanned': 3000, 'canaries_planted': 300, 'result_messages_scanned': 1000,
-                        'failure_paths_logged': 200, 'clients_configured_with_a_password': 100},
+                        'failure_paths_logged': 200, 'clients_configured_with_a_password': 100,
+                        'crypto_uses_of_canary_keys': 1000},
         'assumptions': ['DEBUG records are allowed to carry encodings (the property is about the default level INFO)',
                         'a canary counts as leaked when any 12-character window of one of its printable forms appears'],
     }
@@ -230,6 +231,41 @@ def run_case(ctx, case):
                                     ctx.violation('result-message|batch-after-generation|generated-value',
                                                   'a result message of the batch that generated a secret contains that secret: %r'
                                                   % m_[:160], None)
+            # 2b. cryptographic use of canary keys that goes wrong at every depth: an Active key of every common size used with
+            #     every algorithm, block mode and padding (most of which do not fit it), canary plaintext and IVs - whatever
+            #     is refused, by the engine or by the backend, is logged, and the key is in none of those records
+            for ks in (16, 24, 32, 8):
+                kval = canary(ctx, rng, 'value:active-key', ks)
+                r_ = srv.send([op_register('sym', secret_sym(kval, E.CryptographicAlgorithm.AES, ks * 8), sym_attrs(
+                    E.CryptographicAlgorithm.AES, ks * 8, ALL_MASKS, names=['c20-active-%d-%d' % (ks, case['run'])]))], a)
+                if r_.error is not None or not r_.ok():
+                    continue
+                ku = r_.uid()
+                srv.send([op_activate(ku)], a)
+                pt = canary(ctx, rng, 'plaintext', 32)
+                combos = [(alg, mode, padm) for alg in (E.CryptographicAlgorithm.AES, E.CryptographicAlgorithm.TRIPLE_DES, E.CryptographicAlgorithm.CAST5,
+                                                       E.CryptographicAlgorithm.IDEA, E.CryptographicAlgorithm.BLOWFISH, E.CryptographicAlgorithm.CAMELLIA,
+                                                       E.CryptographicAlgorithm.RC4, E.CryptographicAlgorithm.RSA, E.CryptographicAlgorithm.HMAC_SHA256)
+                          for mode in (E.BlockCipherMode.CBC, E.BlockCipherMode.GCM, E.BlockCipherMode.ECB, None)
+                          for padm in (E.PaddingMethod.PKCS5, None)]
+                for alg, mode, padm in rng.sample(combos, 14):
+                    params = cparams(cryptographic_algorithm=alg, block_cipher_mode=mode, padding_method=padm,
+                                     tag_length=16 if mode == E.BlockCipherMode.GCM else None)
+                    iv = rng.choice((None, canary(ctx, rng, 'iv', 16)[:rng.choice((8, 12, 16))]))
+                    for op in (op_encrypt(ku, pt, params, iv), op_decrypt(ku, pt, params, iv, tag=pt[:16] if mode == E.BlockCipherMode.GCM else None),
+                               op_mac(ku, pt, cparams(cryptographic_algorithm=alg)),
+                               op_derive_key([ku], method=E.DerivationMethod.ENCRYPT, params=rig.attrs.DerivationParameters(
+                                   cryptographic_parameters=params, initialization_vector=iv, derivation_data=pt),
+                                   attributes_list=sym_attrs(E.CryptographicAlgorithm.AES, 128, ALL_MASKS))):
+                        try:
+                            r2 = srv.send([op], a, rng.choice(((1, 2), (1, 4), (2, 0))))
+                        except Exception:
+                            continue
+                        ctx.ev()
+                        scan_result(ctx, r2, 'crypto-use')
+                        ctx.count('crypto_uses_of_canary_keys')
+                        if r2.error is not None or not r2.ok():
+                            ctx.count('failure_paths_logged')
             # 3. reads, refusals and the known internal-error paths on canary objects
             for kind, (u, val) in uids.items():
                 for ident in (a, ('bob', None)):
